@@ -519,7 +519,7 @@ let () =
 (* ------------------------------------------------------------------ c18.parsers: the real parsers in the monad *)
 (* c18.parsers be owed <kind> <params…> <section hex> <nrel> <rel>…
    kinds:  line asz0 | attr ver fmt asz name form implicit foff | rle asz | lle ver asz | locbare asz |
-           aranges | pubnames | fde eh asz cie_ver enc foff
+           aranges | pubnames
    Model = RelocPar.<parser>; owed = the (dynamic) side condition of parser_reloc; the static side condition of
    parser_reloc_static (field map of the applied section) is evaluated too and must imply it. *)
 open RelocPar
